@@ -783,7 +783,7 @@ def gen_tables(rng: random.Random, n_tables=None, max_rows=64, idx_kinds=None):
             else:
                 k = rng.choice(COL_KINDS)
             cols[nm] = k
-        rows = rng.choice([8, 12, 16, 24, 32, 48, max_rows])
+        rows = rng.choice([8, 12, 16, 24, 32, 48, max_rows, max_rows])
         rows = min(rows, max_rows)
         tables["T%d" % t] = {
             "seed": rng.getrandbits(31),
